@@ -8,8 +8,18 @@ T: the devices' native gate lists, the setup string each topology_map hands to t
 H: lean/QipVerif/Model/Transpile.lean (route-then-resolve, composed from the C07 and C03 models) is
    run side by side with processor.transpile(qc): the gate lists are compared exactly.
 Oracle (independent of the model): names within native + markers, every multi-qubit gate on
-   qubits the hardware couples, dense unitary equality (<= 5 qubits)."""
-import itertools, math, time
+   qubits the hardware couples, dense unitary equality (<= 5 qubits).
+
+Streams: every placement of every library gate (exhaustive, 1-5 qubits x 4 devices); SYSTEMATIC
+two- and three-gate circuits for every pair of every register on every device (both orientations of a
+pair, repeats, the same pair under other names, exchange gates before / after controlled gates,
+three-qubit gates after a two-qubit gate on two of their qubits); HISTORIES of transpile calls in one
+process (orientations; devices that share a chain setup; register sizes; the same circuit object
+twice); random circuits; malformed circuits.  The fields of the emitted gate objects that the model
+fixes (control_value, classical controls, a label that contradicts the angle) are compared too.  A
+witness that only fails after earlier calls of the process is replaced by the shortest failing call
+sequence, checked in a fresh interpreter."""
+import itertools, json, math, os, re, subprocess, sys, time
 import numpy as np
 
 from vlib.core import PropertyCheck, TranslatorError
@@ -75,12 +85,17 @@ class RG(G):
         return super().value()
 
 
-def impl_transpile(dev, N, gates):
+CALLS = []      # every transpile call of this process, in order (witnesses)
+
+
+def impl_transpile(dev, N, gates, qc=None):
     """-> (verdict, transpiled circuit | None, input circuit | None)"""
-    try:
-        qc = raw_circuit(N, gates)
-    except Exception as e:
-        return "unconstructible:" + type(e).__name__, None, None
+    if qc is None:
+        try:
+            qc = raw_circuit(N, gates)
+        except Exception as e:
+            return "unconstructible:" + type(e).__name__, None, None
+    CALLS.append(wit(dev, N, gates))
     proc = processor(dev, N)
     try:
         r = proc.transpile(qc)
@@ -134,46 +149,86 @@ def gates_of(w):
     return gs
 
 
+LABEL = re.compile(r"^(-?)(\d*)\\pi(?:/(\d+))?$")
+
+
+def field_defect(g):
+    """fields of an emitted gate object that the model fixes: no control value other than "all controls 1", no
+    classical condition, and a label of the form k\\pi/m must be the angle it labels -> None | description"""
+    cs = aslist(g.controls)
+    if g.control_value is not None and (not cs or g.control_value != 2 ** len(cs) - 1):
+        return f"{g.name}{aslist(g.targets)}: control_value={g.control_value!r}"
+    if g.classical_controls is not None or g.classical_control_value is not None:
+        return f"{g.name}{aslist(g.targets)}: classical condition {g.classical_controls!r}/{g.classical_control_value!r}"
+    lab = g.arg_label
+    if lab is not None and not isinstance(lab, str):
+        return f"{g.name}{aslist(g.targets)}: arg_label={lab!r}"
+    if isinstance(lab, str) and isinstance(g.arg_value, (int, float)):
+        m = LABEL.match(lab)
+        if m:
+            v = (-1 if m.group(1) else 1) * (int(m.group(2)) if m.group(2) else 1) * math.pi / (int(m.group(3)) if m.group(3) else 1)
+            if abs(v - g.arg_value) > 1e-9:
+                return f"{g.name}{aslist(g.targets)}: label {lab!r} on the angle {g.arg_value!r}"
+    return None
+
+
 def check_property(w):
-    """The property itself on the real code for one witness -> (fails, detail)."""
+    """The property on the real code -> (fails, detail): one transpile call, or a history of calls made in one
+    process, in order (`"reuse": true` = the circuit OBJECT of the previous call is transpiled again)."""
+    if "history" not in w:
+        return check_single(w)[:2]
+    prev, n = None, len(w["history"])
+    for k, c in enumerate(w["history"]):
+        f, d, prev = check_single(c, prev if c.get("reuse") else None)
+        if f:
+            return True, f"call {k + 1} of {n} made in one process ({c['dev']}({c['N']})): " + d
+    return False, f"all {n} calls meet the property"
+
+
+def check_single(w, qc=None):
+    f, d, qc = _check_single(w, qc)
+    return f, d, qc
+
+
+def _check_single(w, qc0):
     dev, N = w["dev"], w["N"]
     if dev not in DEVS or not (1 <= N <= 8) or not buildable(dev, N):
-        return False, "outside the property's class (device / register size)"
+        return False, "outside the property's class (device / register size)", None
     if not all(shape_ok(N, g) for g in w["gates"]):
-        return False, "outside the property's class (not a library gate on distinct in-range qubits)"
+        return False, "outside the property's class (not a library gate on distinct in-range qubits)", None
     native = list(processor(dev, N).native_gates)
-    st, r, qc = impl_transpile(dev, N, gates_of(w))
+    st, r, qc = impl_transpile(dev, N, gates_of(w), qc0)
     if qc is None:
-        return False, f"not constructible ({st})"
+        return False, f"not constructible ({st})", None
     bad = [g[0] for g in w["gates"] if not expressible(dev, g[0], native)]
     allowed = set(native) | MARKERS
     if st != "ok":
         if bad:
-            return False, f"refused ({st}): {sorted(set(bad))} cannot be expressed in {native}"
-        return True, f"a circuit of expressible gates is refused: {st}"
+            return False, f"refused ({st}): {sorted(set(bad))} cannot be expressed in {native}", qc
+        return True, f"a circuit of expressible gates is refused: {st}", qc
     names = sorted({g.name for g in r.gates} - allowed)
     if names:
         return True, f"transpiled circuit contains {names}, not native to {dev} {native}" + \
-            (f" (inexpressible input gates {sorted(set(bad))} were not refused)" if bad else "")
+            (f" (inexpressible input gates {sorted(set(bad))} were not refused)" if bad else ""), qc
     for g in r.gates:
         qs = aslist(g.controls) + aslist(g.targets)
         for a, b in itertools.combinations(qs, 2):
             if not coupled(dev, N, a, b):
                 return True, (f"{g.name} on qubits {qs} in the transpiled circuit: {a} and {b} are not coupled on {dev}({N}) "
-                              f"[{TOPOLOGY[dev]} topology]")
+                              f"[{TOPOLOGY[dev]} topology]"), qc
     if N <= 5:
         try:
             U0 = qc.compute_unitary().full()
         except Exception as e:
-            return False, f"input circuit has no unitary ({type(e).__name__})"
+            return False, f"input circuit has no unitary ({type(e).__name__})", qc
         try:
             U1 = r.compute_unitary().full()
         except Exception as e:
-            return True, f"transpiled circuit has no unitary ({type(e).__name__}: {e})"
+            return True, f"transpiled circuit has no unitary ({type(e).__name__}: {e})", qc
         d = float(np.abs(U0 - U1).max())
         if d > 1e-9:
-            return True, f"unitary of the transpiled circuit differs by {d:.3g} (global phase included)"
-    return False, "native gates only, coupled qubits only, same unitary"
+            return True, f"unitary of the transpiled circuit differs by {d:.3g} (global phase included)", qc
+    return False, "native gates only, coupled qubits only, same unitary", qc
 
 
 def placed(name, qs, idx=0):
